@@ -16,12 +16,17 @@ def VecFits (len off n inc : Int) : Prop := 0 ≤ off ∧ (0 < n → off + (n - 
 /-- the `m × n` block with leading dimension `ld` starting at `off` lies inside a buffer of `len` elements -/
 def MatFits (len off m n ld : Int) : Prop := 0 ≤ off ∧ (0 < m → 0 < n → m ≤ ld ∧ off + (n - 1) * ld + m ≤ len)
 
+/-- every element `off + j·ld + i` (`i < m`, `j < n`) of a block lies inside a buffer of `len` elements (no statement about `m ≤ ld`: with a
+smaller leading dimension the columns overlap but stay inside) -/
+def MatIn (len off m n ld : Int) : Prop := 0 ≤ off ∧ 0 ≤ ld ∧ (0 < m → 0 < n → off + (n - 1) * ld + m ≤ len)
+
 /-- `n` contiguous elements starting at `off` lie inside a buffer of `len` elements -/
 def SegFits (len off n : Int) : Prop := 0 ≤ off ∧ (0 < n → off + n ≤ len)
 
 instance (len off n inc : Int) : Decidable (VecFits len off n inc) := by unfold VecFits; infer_instance
 instance (len off m n ld : Int) : Decidable (MatFits len off m n ld) := by unfold MatFits; infer_instance
 instance (len off n : Int) : Decidable (SegFits len off n) := by unfold SegFits; infer_instance
+instance (len off m n ld : Int) : Decidable (MatIn len off m n ld) := by unfold MatIn; infer_instance
 
 theorem iabs_cases (a : Int) : (a < 0 ∧ iabs a = -a) ∨ (0 ≤ a ∧ iabs a = a) := by
   unfold iabs; split <;> omega
